@@ -71,12 +71,25 @@ def gen(tier, seed):
         kind, manifest, file_string, true_path, decoys = fixed[i] if i < len(fixed) else layout(rng, i)
         lines.append("fsclear")
         meta.append(None)
-        for p in [true_path] + decoys:
+        # the package has more than one source file: the queries of one package share the manifest dir and come in a random
+        # order (a report must not depend on which files of the package failed before): a second file named like the first
+        # (relative to the same root), and a file the compiler names by an absolute path (include!(concat!(env!("OUT_DIR"), ..)))
+        queries = [(kind, file_string, true_path)]
+        if i >= len(fixed) and rng.random() < 0.6:
+            if kind != "outside_abs":
+                other = file_string.rsplit("/", 1)[0] + "/other_%s" % rng.choice(FILES)
+                queries.append((kind + "+sibling", other, true_path.rsplit("/", 1)[0] + "/" + other.rsplit("/", 1)[1]))
+            gen_path = os.path.join(fsroot(), "l%d" % i, "target-out", "gen.rs")
+            queries.append((kind + "+absolute-include", gen_path, gen_path))
+            rng.shuffle(queries)
+        existing = sorted(set([q[2] for q in queries] + decoys))
+        for p in existing:
             lines.append("fs\t" + hx(p))
             meta.append(None)
-        lines.append("abspath\t%s\t%s" % (hx(manifest), hx(file_string)))
-        meta.append({"kind": kind, "manifest_dir": manifest, "file": file_string, "true_path": true_path,
-                     "existing": sorted(set([true_path] + decoys))})
+        for qkind, qfile, qtrue in queries:
+            lines.append("abspath\t%s\t%s" % (hx(manifest), hx(qfile)))
+            meta.append({"kind": qkind, "manifest_dir": manifest, "file": qfile, "true_path": qtrue, "existing": existing,
+                         "earlier_in_process": [q[1] for q in queries[:queries.index((qkind, qfile, qtrue))]]})
     # syntax stream: no files on disk; odd spellings of both strings
     lines.append("fsclear")
     meta.append(None)
@@ -110,8 +123,9 @@ def oracle_for(meta):
         cands = candidates(m["manifest_dir"], m["file"])
         existing = [c for c in set(cands) if c in m["existing"]]
         if existing == [m["true_path"]] and got != m["true_path"]:
-            return ("unambiguous %s layout: manifest dir %s, file!() %s; the invoking file is %s but the report would read %s"
-                    % (m["kind"], m["manifest_dir"], m["file"], m["true_path"], got))
+            return ("unambiguous %s layout: manifest dir %s, file!() %s; the invoking file is %s but the report would read %s%s"
+                    % (m["kind"], m["manifest_dir"], m["file"], m["true_path"], got,
+                       (" (after reports for %s of the same package in this process)" % ", ".join(m["earlier_in_process"])) if m.get("earlier_in_process") else ""))
         return None
     return oracle
 
@@ -149,14 +163,14 @@ def run(res):
 
     def describe(c):
         m = bypos[c]
-        return {k: m[k] for k in ("kind", "manifest_dir", "file", "existing")}
+        return {k: m.get(k) for k in ("kind", "manifest_dir", "file", "existing", "earlier_in_process")}
 
     def nontrivial(c, a):
         m = bypos[c]
         if m["true_path"] is None:
             return "//" in m["manifest_dir"] or "/./" in m["manifest_dir"] or ".." in m["manifest_dir"] or m["file"].startswith("/")
         # an overlap exists or names repeat
-        return m["kind"] in ("flat", "nested") or len(set(m["manifest_dir"].split("/")) & set(m["file"].split("/"))) > 0
+        return m["kind"].split("+")[0] in ("flat", "nested") or len(set(m["manifest_dir"].split("/")) & set(m["file"].split("/"))) > 0
 
     st = vlib.correspond(res, "abspath", cases, ia, ib, describe, nontrivial, oracle_for(bypos))
     if st["disagreements"] == 0 and st["oracle_failures"] == 0:
@@ -168,7 +182,8 @@ def run(res):
     res.coverage.update({
         "evaluations": len(cases), "distinct_nontrivial": st["distinct_nontrivial"],
         "rule": "generated layouts created on disk (single package, flat and nested members to depth 3, repeated directory names, "
-                "path dependency outside the workspace with relative and absolute file!(), 25% with a second existing candidate) plus a "
+                "path dependency outside the workspace with relative and absolute file!(), 25% with a second existing candidate; 60% of the "
+                "packages are asked about two or three of their files in one process, in random order, one of them named by an absolute path) plus a "
                 "syntax stream without files (trailing and doubled slashes, `.`, `..`, leading ./, absolute file); non-trivial = member "
                 "layouts, shared component names, or non-canonical spelling",
         "samples": st["samples"], "distribution": kinds,
@@ -182,7 +197,9 @@ def replay(res, path):
     ok, out = vlib.build_harness("rt")
     if not ok:
         raise vlib.CheckError("harness rt does not build: " + out[-1500:])
-    lines = ["fsclear"] + ["fs\t" + hx(p) for p in c["existing"]] + ["abspath\t%s\t%s" % (hx(c["manifest_dir"]), hx(c["file"]))]
+    lines = (["fsclear"] + ["fs\t" + hx(p) for p in c["existing"]]
+             + ["abspath\t%s\t%s" % (hx(c["manifest_dir"]), hx(f)) for f in (c.get("earlier_in_process") or [])]
+             + ["abspath\t%s\t%s" % (hx(c["manifest_dir"]), hx(c["file"]))])
     impl = vlib.run_harness("rt", lines)
     got = unhx(impl[-1]).decode()
     print("resolved:", got)
